@@ -105,6 +105,16 @@ def ctx_work(item):
             on_exec(None, run_once_serial(cfg))
         else:
             explore(lambda ch: e3.run_once_e3(cfg, ch), on_exec, max_deviations=1)
+            if base.precached:
+                # the pre-cached entries are damaged (result file truncated, metadata intact): whatever
+                # labtech then does with those tasks, a run() must see its proper context
+                def corrupt(storage, built):
+                    for i in base.precached:
+                        files = storage.d.get(built.canon[i].cache_key, {})
+                        for fn in list(files):
+                            if fn != 'metadata.json':
+                                files[fn] = files[fn][: len(files[fn]) // 2]
+                explore(lambda ch: e3.run_once_e3(cfg, ch, storage_hook=corrupt), on_exec, max_deviations=1)
     return n, res
 
 
@@ -293,16 +303,77 @@ def real_threads_case(backend: str):
         shutil.rmtree(tmp, ignore_errors=True)
 
 
+def real_relab_dump(backend: str, storage_root: str):
+    """One Lab (and one runner-backend object shared by two Labs) serving several run_tasks calls
+    whose contexts differ."""
+    silence_labtech()
+    from ..spec import Built
+    from labtech.runners import ForkRunnerBackend, SerialRunnerBackend, SpawnRunnerBackend
+    os.makedirs(storage_root, exist_ok=True)
+    ctxs = [{'k0': 'A0', 'k1': 'A1'}, {'k0': 'B0', 'k1': 'B1'}, {'k0': 'C0', 'k1': 'C1', 'applied': 5}]
+    runs = []
+    lab = labtech.Lab(storage=os.path.join(storage_root, 's0'), runner_backend=backend, max_workers=2, notebook=False, context=dict(ctxs[0]))
+    for step in range(3):
+        spec = mk_spec(((), (0,)), types=('TF', 'TG'), labels=(10 * step, 10 * step + 1))
+        if step:
+            lab.context = dict(ctxs[step])            # the context is replaced between the calls
+        res = lab.run_tasks(list(Built(spec).canon), disable_progress=True, disable_top=True)
+        runs.append({'labels': list(spec.labels), 'ctx': ctxs[step], 'returned': len(res)})
+    be = {'serial': SerialRunnerBackend, 'fork': ForkRunnerBackend, 'spawn': SpawnRunnerBackend}[backend]()
+    for step in (3, 4):
+        spec = mk_spec(((), (0,)), types=('TF', 'TG'), labels=(10 * step, 10 * step + 1))
+        lab2 = labtech.Lab(storage=os.path.join(storage_root, f's{step}'), runner_backend=be, max_workers=2, notebook=False, context=dict(ctxs[step - 3]))
+        res = lab2.run_tasks(list(Built(spec).canon), disable_progress=True, disable_top=True)
+        runs.append({'labels': list(spec.labels), 'ctx': ctxs[step - 3], 'returned': len(res)})
+    print(json.dumps({'runs': runs}))
+
+
+def real_relab_case(backend: str):
+    tmp = tempfile.mkdtemp(prefix='c16l_')
+    out = []
+    try:
+        wf = os.path.join(tmp, 'world.log')
+        open(wf, 'w').close()
+        rc, so, se = run_isolated([sys.executable, '-m', 'verif_lt.props.c16', '--relab', backend, os.path.join(tmp, 'st')],
+                                  env=py_env(1, VERIF_WORLD_FILE=wf, VERIF_RECORD_ENV=1), timeout=300)
+        d = f'one Lab / one backend object serving several run_tasks calls with different contexts ({backend})'
+        if rc != 0:
+            return [('relab-run-failed', f'{d}: exited {rc}: {se[-500:]}', 1)], 0
+        parent = json.loads(so.strip().splitlines()[-1])
+        envs = [json.loads(l) for l in open(wf) if l.strip()]
+        envs = {tuple(e[3])[1]: e for e in envs if e[2] == 'env'}
+        n = 0
+        for r in parent['runs']:
+            for label in r['labels']:
+                e = envs.get(label)
+                if e is None or r['returned'] != 2:
+                    out.append((f'{backend}:missing-executions', f'{d}: no environment record / result for label {label}', 1))
+                    continue
+                n += 1
+                k = tuple(e[3])
+                want = [list(x) for x in expected_ctx(k[0], k[1], dict(r['ctx']))]
+                if e[9] != want:
+                    out.append((f'{backend}:wrong-context-in-later-run', f'{d}: {k} ran with context {e[9]}, filter_context(lab.context) is {want}', 1))
+        return out, n
+    finally:
+        shutil.rmtree(tmp, ignore_errors=True)
+
+
 def real_case(args):
-    backend, mw, dag = args
+    backend, mw, dag = args[:3]
+    inline = len(args) > 3 and args[3] == 'inline'
     tmp = tempfile.mkdtemp(prefix='c16r_')
     out = []
     try:
         wf = os.path.join(tmp, 'world.log')
         open(wf, 'w').close()
-        rc, so, se = run_isolated([sys.executable, '-m', 'verif_lt.props.c16', '--real', backend, str(mw), str(dag), os.path.join(tmp, 'st')],
-                                  env=py_env(1, VERIF_WORLD_FILE=wf, VERIF_RECORD_ENV=1), timeout=240)
-        d = f'backend={backend} max_workers={mw} dag={dag}'
+        argv = [sys.executable, '-m', 'verif_lt.props.c16', '--real', backend, str(mw), str(dag), os.path.join(tmp, 'st')]
+        if inline:
+            # the caller is not a script file: python -c (no __main__.__file__), as in a REPL or notebook
+            argv = [sys.executable, '-c', 'import sys; from verif_lt.props.c16 import real_dump; real_dump(sys.argv[1], sys.argv[2], int(sys.argv[3]), sys.argv[4])',
+                    backend, str(mw), str(dag), os.path.join(tmp, 'st')]
+        rc, so, se = run_isolated(argv, env=py_env(1, VERIF_WORLD_FILE=wf, VERIF_RECORD_ENV=1), timeout=240)
+        d = f'backend={backend} max_workers={mw} dag={dag}' + (' (caller started with python -c)' if inline else '')
         if rc != 0:
             return [(f'run-failed:{backend}', f'{d}: exited {rc}: {se[-500:]}', 1)], 0
         parent = json.loads(so.strip().splitlines()[-1])
@@ -354,6 +425,9 @@ def _work(item):
     if kind == 'threads':
         out, n = real_threads_case(item[1])
         return 'real', n, out
+    if kind == 'relab':
+        out, n = real_relab_case(item[1])
+        return 'real', n, out
     out, n = real_case(item[1])
     return 'real', n, out
 
@@ -376,8 +450,9 @@ def run(tier: str, seed: int) -> Result:
     mws = (1, 2) if tier == 'quick' else (1, 2, 'None')
     dags = (0, 1) if tier == 'quick' else (0, 1, 2)
     reals = [(b, mw, dg) for b in ('serial', 'fork', 'spawn') for mw in mws for dg in dags]
+    reals += [('spawn', 2, 0, 'inline'), ('fork', 2, 0, 'inline')] + ([('spawn', 1, 1, 'inline'), ('serial', 1, 1, 'inline')] if tier != 'quick' else [])
     seqs = ['fork-spawn-fork', 'spawn-fork-serial'] if tier == 'quick' else ['fork-spawn-fork', 'spawn-fork-serial', 'serial-spawn-spawn-fork', 'fork-fork-spawn']
-    work = [('real', r) for r in reals] + [('seq', sq) for sq in seqs] + [('threads', 'fork')] + ([('threads', 'spawn')] if tier != 'quick' else []) + work
+    work = [('real', r) for r in reals] + [('seq', sq) for sq in seqs] + [('relab', b) for b in ('serial', 'fork', 'spawn')] + [('threads', 'fork')] + ([('threads', 'spawn')] if tier != 'quick' else []) + work
     viols = []
     n_ctx = n_bytes = n_real = 0
     for kind, n, res in pmap(_work, work):
@@ -420,5 +495,7 @@ if __name__ == '__main__':
         real_dump(sys.argv[2], sys.argv[3], int(sys.argv[4]), sys.argv[5])
     elif len(sys.argv) >= 4 and sys.argv[1] == '--threads':
         real_threads_dump(sys.argv[2], sys.argv[3])
+    elif len(sys.argv) >= 4 and sys.argv[1] == '--relab':
+        real_relab_dump(sys.argv[2], sys.argv[3])
     elif len(sys.argv) >= 4 and sys.argv[1] == '--sequence':
         real_sequence_dump(sys.argv[2], sys.argv[3])
